@@ -1421,7 +1421,14 @@ class QueryBuilder(Selectable, Term):  # type:ignore[misc]
         has_reference_to_foreign_table = self._foreign_table
         has_update_from = self._update_table and self._from
 
+        # The embedding position only decides how the finished query is wrapped (parentheses, alias).
+        # The clauses themselves are rendered as for a stand-alone query: flags of the position
+        # (print aliases, sub-criterion brackets) must not leak into them.
+        as_subquery, with_alias = ctx.subquery, ctx.with_alias
         ctx = ctx.copy(
+            subquery=False,
+            with_alias=False,
+            subcriterion=False,
             with_namespace=any(
                 [
                     has_joins,
@@ -1430,7 +1437,7 @@ class QueryBuilder(Selectable, Term):  # type:ignore[misc]
                     has_reference_to_foreign_table,
                     has_update_from,
                 ]
-            )
+            ),
         )
 
         if self._update_table:
@@ -1525,12 +1532,12 @@ class QueryBuilder(Selectable, Term):  # type:ignore[misc]
         if self._for_update:
             querystring += self._for_update_sql(ctx)
 
-        if ctx.subquery:
+        if as_subquery:
             querystring = "({query})".format(query=querystring)
         if self._on_conflict:
             querystring += self._on_conflict_sql(ctx)
             querystring += self._on_conflict_action_sql(ctx)
-        if ctx.with_alias:
+        if with_alias:
             return format_alias_sql(querystring, self.alias, ctx)
 
         return querystring
